@@ -116,6 +116,23 @@ theorem step_link (s : Sys F) (ev : Ev) (hnd : (ids s.links).Nodup) :
   | failBind cid =>
     refine ⟨rfl, fun i l hl => ⟨l, hl, LinkFx.refl _ l, ?_, fun _ => Or.inl rfl⟩⟩
     unfold ProbeFx; rw [if_neg (by simp [consulted])]; exact Or.inl rfl
+  | stamp idx weak ld ccb cct =>
+    -- a verdict stamp rewrites four fields outside the data path of one link
+    refine ⟨by show (stampLink s.links idx weak ld ccb cct).length = _; unfold stampLink; exact List.length_mapIdx,
+      fun i l hl => ?_⟩
+    have hg : (step s (.stamp idx weak ld ccb cct)).1.links[i]? =
+        some (if i = idx then { l with weak := weak, lossDegraded := ld, ccBackingOff := ccb, ccTarget := cct }
+          else l) := by
+      show (stampLink s.links idx weak ld ccb cct)[i]? = _
+      unfold stampLink
+      rw [List.getElem?_mapIdx, hl]; rfl
+    refine ⟨_, hg, ?_, ?_, fun _ => Or.inl ?_⟩
+    · split
+      · exact ⟨rfl, Or.inl ⟨by simp [appended], rfl, Or.inl rfl⟩⟩
+      · exact LinkFx.refl _ l
+    · unfold ProbeFx; rw [if_neg (by simp [consulted])]
+      split <;> exact Or.inl rfl
+    · split <;> rfl
 
 /-! ## The invariant -/
 
